@@ -269,7 +269,7 @@ def run(rep, tier, seed):
     rep.encoded(IMP, ["_get_basilisp_bytecode", "_basilisp_bytecode", "_r_long", "_w_long"], "executed on CrossHair symbolic bytes/ints (marshal stubbed)")
     rep.encoded(KW, ["keyword", "keyword_from_hash", "hash_kw", "Keyword.__init__", "Keyword.__eq__"], "PySym with two uninterpreted hash functions")
     # ---- K1: header codec under CrossHair
-    run_specs(rep, header_specs(90 if quick else 600), lambda s, c: {"kind": "header"}, lambda s, c: f"{s.name}: {c}")
+    run_specs(rep, header_specs(90 if quick else 300), lambda s, c: {"kind": "header"}, lambda s, c: f"{s.name}: {c}")
     r = check(header_scenario, lambda: Interp(), timeout_s=300)
     rep.solver_s += r["stats"]["solver_s"]
     rep.queries += r["stats"]["queries"]
